@@ -746,6 +746,8 @@ fn perm_digits_case(cx: &mut Ctx, digits: &[u8], elem: &str) {
         "string" => perm_case(cx, "string", digits.iter().map(|&d| STRS[d as usize].to_string()).collect(), &format!("perm:{}:string", ds)),
         "tuple" => perm_case(cx, "tuple", digits.iter().map(|&d| TUPS[d as usize]).collect(), &format!("perm:{}:tuple", ds)),
         "reverse" => perm_case(cx, "reverse", digits.iter().map(|&d| Reverse(d)).collect(), &format!("perm:{}:reverse", ds)),
+        // signed bytes with both signs: -2, -1, 0, 1, .. (unsigned byte order would put the negatives last)
+        "i8" => perm_case(cx, "i8", digits.iter().map(|&d| d as i8 - 2).collect(), &format!("perm:{}:i8", ds)),
         // elements of 32 and 40 bytes (an implementation may move wide elements by another route), and boxed ones
         "wide" => perm_case(cx, "wide", digits.iter().map(|&d| [d as u64, 7, 7, d as u64 ^ 5]).collect(), &format!("perm:{}:wide", ds)),
         "strpair" => perm_case(cx, "strpair", digits.iter().map(|&d| (STRS[d as usize].to_string(), d as usize * 3, d as u64)).collect(), &format!("perm:{}:strpair", ds)),
@@ -957,7 +959,7 @@ fn plan_perms(plan: &mut Plan, thorough: bool, seed: u64) {
     for _ in 0..if thorough { 600 } else { 120 } {
         let len = rng.range_usize(0, 6);
         let digits: Vec<u8> = (0..len).map(|_| rng.below(10) as u8).collect();
-        let elem = *rng.pick(&["string", "tuple", "reverse", "wide", "strpair", "boxed"]);
+        let elem = *rng.pick(&["string", "tuple", "reverse", "wide", "strpair", "boxed", "i8"]);
         plan.tasks.push(Task::PermDigits { digits, elem });
     }
     // longer sequences with a bounded number of arrangements (beyond the stated scope of lengths, still lawful)
@@ -970,7 +972,15 @@ fn plan_perms(plan: &mut Plan, thorough: bool, seed: u64) {
         let digits: Vec<u8> = (0..len).map(|_| if rng.chance(3, 5) { heavy } else { rng.below(alpha) as u8 }).collect();
         let (_, cnt) = run_lengths(&digits);
         if multinomial(&cnt) <= 3000 {
-            plan.tasks.push(Task::PermDigits { digits, elem: "u8" });
+            // a third of them over one-byte element types whose order is not the order of their bytes (signed, reversed),
+            // and over the other element kinds
+            let elem = match made % 6 {
+                0 => "i8",
+                1 => "reverse",
+                2 => *rng.pick(&["string", "wide", "boxed", "tuple"]),
+                _ => "u8",
+            };
+            plan.tasks.push(Task::PermDigits { digits, elem });
             made += 1;
         }
     }
